@@ -304,3 +304,34 @@ func HC07_compose_ids() {
 	checkSteps("C07", dm, out, vs)
 	vh.WellFormed("C07.result", &out.Choice.Result, dm.ChoseToMake)
 }
+
+//verif:bounds C07 HC07_compose_L4 (thorough tier only): every method x every sequence of four bias variants (with repetition) drawn from the six of L3 - the quantifier's maximum length - with one fixed draw pattern and fixed numeric parameters (shape-level), K=3, considered = all / all-but-one
+//verif:harness HC07_compose_L4 mode=REAL tier=thorough reach=all-fired,evaluate-returned
+func HC07_compose_L4() {
+	method := rt.OneOf("method", Methods...)
+	six := []string{"criteriaOmission", "preferenceReversal", "fatigue", "criteriaConcealment", "criteriaMixing", "anchoring/newCriterion"}
+	vs := []string{rt.OneOf("bias1", six...), rt.OneOf("bias2", six...), rt.OneOf("bias3", six...), rt.OneOf("bias4", six...)}
+	o := c07opts(method, vs)
+	o.K = 3
+	o.Values = 1
+	rt.SetDrawMode(1)
+	o.ConcreteParams = true
+	dm := Request(o)
+	for i, v := range vs {
+		dm.Biases = append(dm.Biases, Bias(v, DefaultPropsOpt(v, dm, []string{"b1.", "b2.", "b3.", "b4."}[i], true)))
+	}
+	c07known(method, vs)
+	out := Decide(dm)
+	rt.Assert("C07.answered-with-a-ranking", !out.Panicked)
+	if out.Panicked {
+		return
+	}
+	if len(out.Rec.Steps) == 4 && !out.Rec.Steps[3].Panicked {
+		rt.Reach("all-fired")
+	}
+	if out.Rec.EvaluateReturned {
+		rt.Reach("evaluate-returned")
+	}
+	checkSteps("C07", dm, out, vs)
+	vh.WellFormed("C07.result", &out.Choice.Result, dm.ChoseToMake)
+}
